@@ -34,6 +34,7 @@ RULE = (
     "6 (thorough) fresh interpreters with drawn PYTHONHASHSEED values, each in two drawn orders with clear_caches and unrelated "
     "compilations in between. An evaluation = one (template, configuration, interpreter, pass) compilation. Non-trivial = a "
     "template in which >= 2 names flow through one of the biased sites; distinct = digest(source, configuration)."
+    ' Other interpreters than the base one run disturbances (failing expression / template compilations, meta introspection, lexing) in the same environment before a compilation; a zoo of constant expressions is folded into the source; per corpus 12 (quick) / 60 (thorough) further runs compile on 2-3 simulated threads at once and compare with the source obtained alone.'
 )
 ASSUMPTIONS = [
     "hash-seed dependence shows as differing generated source between interpreters with different PYTHONHASHSEED; 3-6 seeds per corpus are sampled, not all",
@@ -134,7 +135,7 @@ def run_threads(tape: Tape) -> Outcome:
         envs = [env0 if shared_env else mk_env() for _ in range(nt)]
         for e_ in envs:
             e_.lexer  # noqa: B018
-        sched = T.Sched(sched_tape, step_cap=3_000_000, line_level=True, wall_cap=60.0)
+        sched = T.Sched(sched_tape, step_cap=12_000_000, line_level=True, wall_cap=90.0)
         results = [[None] * len(p_) for p_ in progs]
 
         def body(tid):
